@@ -470,7 +470,9 @@ Definition model_call_c (c : cfg) (m : table) (k : call) : res :=
   | KName g v cc => concat_res cc (flagname_c c m g v)
   | KExist g ls fe we => flagexist_c c m g ls fe we
   | KVNV g v => match flagname_c c m g v with RNames ns => flagval_c c m g ns | r => r end
-  | KNVN g ls => match flagval_c c m g ls with RVal v => flagname_c c m g v | r => r end
+  | KNVN g ls => match flagval_c c m g ls with
+                 | RVal v => flagname_c c m g (if c_acc_u64 c then v else v mod two64)   (* np.uint64(np.int64(v)) wraps *)
+                 | r => r end
   end.
 
 Definition call_verdict_c (c : cfg) (wf : bool) (m : table) (rows : list row) (aliases : list arow) (ce : call * res) : Z :=
